@@ -25,9 +25,7 @@ def legit(h, force):
     can = sim.can_nt(h)
     if force and not can:
         return False
-    if k == "pass":
-        return can
-    if k == "single":
+    if k in ("single", "pass"):
         return can or h.get("last") is not None
     if k == "ksingle":
         last = set(kk for kk, _ in (h.get("last") or []))
